@@ -2027,6 +2027,219 @@ theorem site_rows_kept (blocks : List BlockDef) (look : String → Option RawBlo
   have := site_fold_rows look e he1 he2 blocks ([], Option.none) st h
   simpa [allRows] using this
 
+/-! ## 13. sinex_tms at file level: the site blocks -/
+
+/-- the entry names under which the list-type site blocks of sinex_tms are stored -/
+def tmsListEntry (e : String) : Prop := e = "site_id" ∨ e = "site_receiver" ∨ e = "site_eccentricity"
+
+/-- a block whose parser stores nothing under `e` -/
+def OtherEntry (e : String) (b : BlockDef) : Prop := ∀ q, b.kind = .custom q → entryName q ≠ e
+
+theorem tmsStep_other (look : String → Option RawBlock) (e : String) (he : tmsListEntry e) (D D' : List (String × Val))
+    (b : BlockDef) (hb : OtherEntry e b) (h : tmsStep look D b = some D') : dget? D' e = dget? D e := by
+  have hrc : "ref_coordinate" ≠ e := by
+    rcases he with rfl | rfl | rfl <;> decide
+  unfold tmsStep at h
+  cases hlook : look b.marker with
+  | none => simp only [hlook, Option.some.injEq] at h; subst h; rfl
+  | some r =>
+    cases hk : b.kind with
+    | dflt => simp [hlook, hk] at h
+    | matrix _ => simp [hlook, hk] at h
+    | custom q =>
+      have hq : entryName q ≠ e := hb q hk
+      simp only [hlook, hk] at h
+      by_cases h1 : entryName q = "timeseries_data"
+      · simp only [h1, if_true] at h
+        cases hn : tmsNames D with
+        | none => simp [hn] at h
+        | some names =>
+          cases hd : tmsData names r.lines with
+          | none => simp [hn, hd] at h
+          | some d =>
+            simp only [hn, hd, Option.bind_some, Option.map_some, Option.some.injEq] at h
+            subst h
+            exact dget_dset_ne _ _ _ _ (by rw [← h1]; exact hq)
+      · simp only [h1, if_false] at h
+        by_cases h2 : entryName q = "file_reference"
+        · simp only [h2, if_true] at h
+          cases hf : fileRefTms (rowsOfTms b r) with
+          | none => simp [hf] at h
+          | some d =>
+            simp only [hf, Option.map_some, Option.some.injEq] at h
+            subst h
+            exact dget_dset_ne _ _ _ _ (by rw [← h2]; exact hq)
+        · simp only [h2, if_false] at h
+          by_cases h3 : entryName q = "site_antenna"
+          · simp only [h3, if_true] at h
+            cases hm : (rowsOfTms b r).mapM antennaRowTms with
+            | none => simp [hm] at h
+            | some rows' =>
+              simp only [hm, Option.map_some, Option.some.injEq] at h
+              subst h
+              exact dget_dset_ne _ _ _ _ (by rw [← h3]; exact hq)
+          · simp only [h3, if_false] at h
+            by_cases h4 : entryName q = "site_id" ∨ entryName q = "site_receiver" ∨ entryName q = "site_eccentricity"
+            · simp only [h4, if_true, Option.some.injEq] at h
+              subst h
+              exact dget_dset_ne _ _ _ _ hq
+            · simp only [h4, if_false] at h
+              by_cases h5 : entryName q = "timeseries_ref_coordinate"
+              · simp only [h5, if_true] at h
+                cases hrows : rowsOfTms b r with
+                | nil => simp [hrows] at h
+                | cons row rest =>
+                  cases rest with
+                  | nil =>
+                    simp only [hrows, Option.some.injEq] at h
+                    subst h
+                    exact dget_dset_ne _ _ _ _ hrc
+                  | cons _ _ => simp [hrows] at h
+              · simp only [h5, if_false] at h
+                by_cases h6 : entryName q = "timeseries_columns"
+                · simp only [h6, if_true, Option.some.injEq] at h
+                  subst h
+                  exact dget_dset_ne _ _ _ _ (by rw [← h6]; exact hq)
+                · simp [h6] at h
+
+theorem tms_fold_other (look : String → Option RawBlock) (e : String) (he : tmsListEntry e) :
+    ∀ (bs : List BlockDef) (D D' : List (String × Val)), (∀ b ∈ bs, OtherEntry e b) →
+      bs.foldlM (tmsStep look) D = some D' → dget? D' e = dget? D e := by
+  intro bs
+  induction bs with
+  | nil =>
+    intro D D' _ h
+    simp only [List.foldlM_nil, Option.pure_def, Option.some.injEq] at h
+    subst h; rfl
+  | cons b rest ih =>
+    intro D D' hall h
+    simp only [List.foldlM_cons, Option.bind_eq_bind] at h
+    cases hstep : tmsStep look D b with
+    | none => simp [hstep] at h
+    | some D1 =>
+      rw [hstep, Option.bind_some] at h
+      rw [ih D1 D' (fun b' hb' => hall b' (by simp [hb'])) h]
+      exact tmsStep_other look e he D D1 b (hall b (by simp)) hstep
+
+/-- **a site block of sinex_tms**: when `SinexTmsParser` returns, the list stored under `site_id`,
+`site_receiver` or `site_eccentricity` holds one dictionary per record of that block, in file order, nothing
+else — whichever other blocks are declared before or after it and present in the file -/
+theorem tms_site_block (look : String → Option RawBlock) (e : String) (he : tmsListEntry e)
+    (pre post : List BlockDef) (b : BlockDef) (q : String) (hk : b.kind = .custom q) (hq : entryName q = e)
+    (hpre : ∀ b' ∈ pre, OtherEntry e b') (hpost : ∀ b' ∈ post, OtherEntry e b')
+    (r : RawBlock) (hr : look b.marker = some r) (D : List (String × Val))
+    (h : assembleTms (pre ++ b :: post) look = some D) :
+    dget? D e = some (.list ((rowsOfTms b r).map rowVal)) := by
+  unfold assembleTms at h
+  rw [List.foldlM_append] at h
+  cases h1 : pre.foldlM (tmsStep look) [] with
+  | none => simp [h1] at h
+  | some D1 =>
+    simp only [h1, Option.bind_eq_bind, Option.bind_some, List.foldlM_cons] at h
+    cases h2 : tmsStep look D1 b with
+    | none => simp [h2] at h
+    | some D2 =>
+      rw [h2, Option.bind_some] at h
+      rw [tms_fold_other look e he post D2 D hpost h]
+      have hD1 : dget? D1 e = Option.none := by
+        rw [tms_fold_other look e he pre [] D1 hpre h1]; rfl
+      have hne1 : ¬ e = "timeseries_data" := by rcases he with rfl | rfl | rfl <;> decide
+      have hne2 : ¬ e = "file_reference" := by rcases he with rfl | rfl | rfl <;> decide
+      have hne3 : ¬ e = "site_antenna" := by rcases he with rfl | rfl | rfl <;> decide
+      unfold tmsStep at h2
+      simp only [hr, hk, hq, hne1, hne2, hne3, if_false] at h2
+      have he' : e = "site_id" ∨ e = "site_receiver" ∨ e = "site_eccentricity" := he
+      simp only [he', if_true, Option.some.injEq] at h2
+      subst h2
+      unfold appendRows
+      rw [dget_dset_self, hD1]
+      rfl
+
+/-- the table of sinex_tms satisfies the hypotheses: each of the three entries belongs to one block -/
+example : ∃ pre post b, tmsBlocks = pre ++ b :: post ∧ b.kind = .custom "SinexTmsParser.parse_site_receiver" ∧
+    entryName "SinexTmsParser.parse_site_receiver" = "site_receiver" ∧
+    (∀ b' ∈ pre, OtherEntry "site_receiver" b') ∧ (∀ b' ∈ post, OtherEntry "site_receiver" b') := by
+  refine ⟨tmsBlocks.take 2, tmsBlocks.drop 3, tmsBlocks[2], by decide +kernel, by decide +kernel, by decide +kernel, ?_, ?_⟩
+  · intro b' hb'
+    simp only [tmsBlocks, List.take, List.mem_cons, List.not_mem_nil, or_false] at hb'
+    rcases hb' with rfl | rfl <;> (intro q hq; simp only [ParserKind.custom.injEq] at hq; subst hq; decide +kernel)
+  · intro b' hb'
+    simp only [tmsBlocks, List.drop, List.mem_cons, List.not_mem_nil, or_false] at hb'
+    rcases hb' with rfl | rfl | rfl | rfl | rfl <;>
+      (intro q hq; simp only [ParserKind.custom.injEq] at hq; subst hq; decide +kernel)
+
+
+theorem emit_lead (L : Layout) (hl : leadOk L = true) (r : Bool × List (Align × Str)) (hf : Fits L r.2 = true)
+    (hvis : emit r.1 (renderA L r.2) ≠ []) : startsWith [' '] (emit r.1 (renderA L r.2)) = true := by
+  obtain ⟨r0, hr0⟩ := render_lead L r.2 hl hf
+  unfold emit at hvis ⊢
+  by_cases hb : r.1 = true
+  · simp only [hb, if_true] at hvis ⊢
+    obtain ⟨ws, hdec, _⟩ := rstrip_decomp (renderA L r.2)
+    cases hrs : rstrip (renderA L r.2) with
+    | nil => exact absurd hrs hvis
+    | cons c t =>
+      rw [hrs, hr0] at hdec
+      simp only [List.cons_append, List.cons.injEq] at hdec
+      rw [← hdec.1, startsWith_cons]; decide
+  · simp only [hb, if_false, Bool.false_eq_true, hr0, startsWith_cons]; decide
+
+/-- **file_roundtrip (site blocks of sinex_tms)**: `SinexTmsParser` (its declared blocks `pre ++ b :: post`, the
+block `b` being the only one stored under the list entry `e`) reads a file that holds — anywhere — the block of `b`
+(first of its marker) whose records were rendered into the columns of `b`'s table (last field ending at some
+column `W`) and written with or without trailing blanks.  Then `data[e]` is the list of one dictionary per
+written record, in order, each value the declared conversion of the written text. -/
+theorem tms_file_site_block (header : List FieldDef) (preB postB : List BlockDef) (b : BlockDef) (q e : String)
+    (he : tmsListEntry e) (hk : b.kind = .custom q) (hq : entryName q = e)
+    (hpreB : ∀ b' ∈ preB, OtherEntry e b') (hpostB : ∀ b' ∈ postB, OtherEntry e b')
+    (W : Nat) (hne : b.fields ≠ []) (hs : Sorted (layoutOf b.fields W) = true) (hl : leadOk (layoutOf b.fields W) = true)
+    (recs : List (Bool × List (Align × Str)))
+    (hf : ∀ r ∈ recs, Fits (layoutOf b.fields W) r.2 = true)
+    (hvis : ∀ r ∈ recs, emit r.1 (renderA (layoutOf b.fields W) r.2) ≠ [])
+    (hd : Str) (pre post : List Seg) (h mk : Str) (ps : List Str) (f : Str)
+    (hmk : asString mk = b.marker) (hfirst : b.marker ∉ (blocksOf pre).map (·.marker))
+    (hwf : SnxFile.wf ⟨hd, pre ++ Seg.block h mk ps (recs.map fun r => emit r.1 (renderA (layoutOf b.fields W) r.2)) f :: post⟩)
+    (R : Result)
+    (hR : parseTmsFile header (preB ++ b :: postB)
+      (SnxFile.text ⟨hd, pre ++ Seg.block h mk ps (recs.map fun r => emit r.1 (renderA (layoutOf b.fields W) r.2)) f :: post⟩)
+        = some R) :
+    R.hdr = headerRow tmsTag header (fun l => l.length + 1) hd ∧
+    ∃ D, R.data = .dict D ∧ dget? D e = some (.list (recs.map fun r => rowVal (convertRow b.fields r.2))) := by
+  unfold parseTmsFile parseWith at hR
+  rw [readRaw_file _ _ _ _ _ hwf] at hR
+  simp only [Option.bind_some] at hR
+  cases hD : assembleTms (preB ++ b :: postB) (rawOf (expected ((preB ++ b :: postB).map (·.marker))
+      (pre ++ Seg.block h mk ps (recs.map fun r => emit r.1 (renderA (layoutOf b.fields W) r.2)) f :: post))) with
+  | none => rw [hD] at hR; simp at hR
+  | some D =>
+    rw [hD] at hR
+    simp only [Option.map_some, Option.some.injEq] at hR
+    subst hR
+    refine ⟨rfl, D, rfl, ?_⟩
+    have hmem : b.marker ∈ (preB ++ b :: postB).map (·.marker) := by simp
+    have hraw : rawOf (expected ((preB ++ b :: postB).map (·.marker))
+        (pre ++ Seg.block h mk ps (recs.map fun r => emit r.1 (renderA (layoutOf b.fields W) r.2)) f :: post)) b.marker =
+        some ⟨asString mk, ps, dataLines (recs.map fun r => emit r.1 (renderA (layoutOf b.fields W) r.2))⟩ := by
+      rw [rawOf_expected]
+      simp only [hmem, if_true]
+      rw [← hmk] at hfirst ⊢
+      exact rawOf_blocksOf_first h mk ps _ f post pre hfirst
+    have hdl : dataLines (recs.map fun r => emit r.1 (renderA (layoutOf b.fields W) r.2)) =
+        recs.map fun r => emit r.1 (renderA (layoutOf b.fields W) r.2) := by
+      unfold dataLines
+      apply List.filter_eq_self.mpr
+      intro l hl'
+      simp only [List.mem_map] at hl'
+      obtain ⟨r, hr, rfl⟩ := hl'
+      exact emit_lead _ hl r (hf r hr) (hvis r hr)
+    rw [hdl] at hraw
+    rw [tms_site_block _ e he preB postB b q hk hq hpreB hpostB _ hraw D hD]
+    have := tms_block_roundtrip b.fields W hne hs recs hf hvis
+    simp only [rowsOfTms]
+    simp only at this
+    rw [this, List.map_map]
+    rfl
+
 end Midgard.Props.C14
 
 #print axioms Midgard.Props.C14.starts_sorted
@@ -2131,3 +2344,8 @@ end Midgard.Props.C14
 #print axioms Midgard.Props.C14.site_fold_rows
 #print axioms Midgard.Props.C14.allRows_addRefFrame
 #print axioms Midgard.Props.C14.site_rows_kept
+#print axioms Midgard.Props.C14.tmsStep_other
+#print axioms Midgard.Props.C14.tms_fold_other
+#print axioms Midgard.Props.C14.tms_site_block
+#print axioms Midgard.Props.C14.emit_lead
+#print axioms Midgard.Props.C14.tms_file_site_block
